@@ -6,7 +6,7 @@
   "source": "matrixssl/dtls.c",
   "plain": true,
   "frame_check": "none: harness-checked contract (VERIF_PLAIN_CONTRACT)",
-  "assumed": ["sslUpdateHSHash (model: demands a readable range, counts the calls)"],
+  "assumed": ["sslUpdateHSHash (model: demands a readable range, counts the calls)", "the receive path stores no zero-length fragment (parseSSLHandshake, DTLS arm: `if (fragLen == 0) return` in front of the store, added by fix 916f296; by reading - that arm is not under a unit; findings/F59-dtls-hang/demo.c exercises it through the public API)"],
   "mode": "bounded",
   "bounds": "up to 2 stored fragment headers (the other 14 slots unused), reassembly buffer of up to 32 bytes, every combination of offsets and lengths the receive path of parseSSLHandshake can store (distinct offsets, offset + length inside the buffer, lengths summing to the message length); the scan loop unwound 56 times with unwinding assertion",
   "unwind": 56,
@@ -18,9 +18,9 @@
 /* C08  "no ... hang ... on any network input": when the last DTLS handshake fragment has arrived,
  * the transcript update walks the stored fragment headers in offset order.  For every set of
  * headers the receive path can have stored it reads only inside the reassembly buffer and
- * finishes, hashing each stored fragment at most once (a zero-length fragment whose offset equals
- * the message length is accepted by the receive path - offset + 0 <= length - and must not be
- * visited for ever). */
+ * finishes, hashing each stored fragment at most once.  (Before fix 916f296 the receive path also
+ * stored zero-length fragments - offset + 0 <= length passes its bounds test - and one whose offset
+ * equals the message length was visited for ever: F59.) */
 #define VERIF_PLAIN_CONTRACT
 #include "verif.h"
 #include "matrixssl/matrixsslImpl.h"
@@ -72,7 +72,7 @@ HARNESS_BEGIN
     {
         if (i < in.n)
         {
-            __CPROVER_assume(in.off[i] <= CAP && in.len[i] <= CAP && in.off[i] + in.len[i] <= in.total);
+            __CPROVER_assume(in.off[i] <= CAP && in.len[i] >= 1 /* empty fragments are not stored: parseSSLHandshake returns before storing one (fix 916f296) */ && in.len[i] <= CAP && in.off[i] + in.len[i] <= in.total);
             for (j = 0; j < NF; j++) { if (j < i) { __CPROVER_assume(in.off[j] != in.off[i]); } }
             sum += in.len[i];
             if (in.off[i] == 0) { has0 = 1; }
